@@ -161,8 +161,10 @@ def analyse(src: Source) -> List[Report]:
     rep.expect_min("R1.2-mirror-closed", 8)
     rep.expect_min("R1.2-label-resolves", 35)
     reports = [rep]
-    from . import c03, c04, c05
-    for mod in (c03, c04, c05):
+    # the property is the top-level one: rates (C03), thinning (C04), lifting (C05) and the order in which the scheduler hands out
+    # the candidate events (C06) are all necessary for it
+    from . import c03, c04, c05, c06
+    for mod in (c03, c04, c05, c06):
         for r in mod.analyse(src):
             r.prop = ID
             for f in r.findings:
